@@ -130,6 +130,10 @@ int32_t jls_buf_string_save(struct jls_buf_s * self, const char * cstr_in, char 
         ROE(strings_alloc(self));
     }
     size_t sz = strlen(cstr_in) + 1;
+    if (sz >= JLS_BUF_STRING_SIZE) {
+        JLS_LOGE("string too long");
+        return JLS_ERROR_TOO_BIG;  // cannot fit in a string block
+    }
     struct jls_buf_strings_s * s = self->strings_tail;
     char * buf_end = s->buffer + sizeof(s->buffer) - 1;
     if ((size_t) (buf_end - s->cur) < sz) {
